@@ -34,25 +34,28 @@ import (
 
 // Site is one declaration site of f (and, in nested mode, of g).
 type Site struct {
-	Decl bool `json:"decl"` // f is declared at this site
-	Pre  bool `json:"pre"`  // with a pre-condition block
-	Post bool `json:"post"` // with a post-condition block
-	Body bool `json:"body"` // with a body (default implementation in an interface; always for C)
-	Pt   bool `json:"pt"`   // truth value of the plain pre test
-	Qt   bool `json:"qt"`   // truth value of the plain post test
-	D    int  `json:"D"`    // post: c.n == before(c.n) + D
-	R    int  `json:"R"`    // post: result == R
-	Gpt  bool `json:"gpt"`  // nested: truth value of g's pre test at this site
-	Gqt  bool `json:"gqt"`  // nested: truth value of g's plain post test
-	E    int  `json:"E"`    // nested: g's post: c.n == before(c.n) + E
+	Decl bool // f is declared at this site
+	Pre  bool // with a pre-condition block
+	Post bool // with a post-condition block
+	Body bool // with a body (default implementation in an interface; always for C)
+	Pt   bool // truth value of the plain pre test
+	Qt   bool // truth value of the plain post test
+	D    int  // post: c.n == before(c.n) + D
+	R    int  // post: result == R
+	Gpt  bool // nested: truth value of g's pre test at this site
+	Gqt  bool // nested: truth value of g's plain post test
+	E    int  // nested: g's post: c.n == before(c.n) + E
 }
 
 type Case struct {
-	ID    int     `json:"id"`
-	NI    int     `json:"ni"`
-	Par   [][]int `json:"par"`   // par[i-1] = ordered explicit conformances of interface Ii
-	Conf  []int   `json:"conf"`  // ordered explicit conformances of C
-	Sites []Site  `json:"sites"` // NI interface sites followed by C
+	ID   int     `json:"id"`
+	NI   int     `json:"ni"`
+	Par  [][]int `json:"par"`  // par[i-1] = ordered explicit conformances of interface Ii
+	Conf []int   `json:"conf"` // ordered explicit conformances of C
+	// RawSites: NI interface sites followed by C, each
+	// [8*decl+4*pre+2*post+body, pt, qt, D, R, gpt, gqt, E] (layout of SiteRow in Conditions.tla)
+	RawSites [][]int `json:"sites"`
+	Sites    []Site  `json:"-"`
 	Dd    int     `json:"d"`     // increment performed by the body of f
 	Rr    int     `json:"r"`     // value returned by the body of f
 	Nest  bool    `json:"nest"`  // body of C.f calls self.g
@@ -264,8 +267,19 @@ func main() {
 		if err := json.Unmarshal(line, c); err != nil {
 			return fmt.Errorf("bad case line: %v: %s", err, string(line))
 		}
-		if len(c.Sites) != c.NI+1 || len(c.Par) != c.NI {
+		if len(c.RawSites) != c.NI+1 || len(c.Par) != c.NI {
 			return fmt.Errorf("malformed case %d", c.ID)
+		}
+		for _, rs := range c.RawSites {
+			if len(rs) != 8 {
+				return fmt.Errorf("malformed site in case %d", c.ID)
+			}
+			k := rs[0]
+			c.Sites = append(c.Sites, Site{
+				Decl: k&8 != 0, Pre: k&4 != 0, Post: k&2 != 0, Body: k&1 != 0,
+				Pt: rs[1] != 0, Qt: rs[2] != 0, D: rs[3], R: rs[4],
+				Gpt: rs[5] != 0, Gqt: rs[6] != 0, E: rs[7],
+			})
 		}
 		cases = append(cases, c)
 		return nil
